@@ -126,6 +126,28 @@ type Region struct {
 	Body []TNode
 }
 
+// RegionTag is a single bound tag ({% kind %} or {% endkind %}) on its own: used to write regions that cross
+// each other ({% a %}{% b %}…{% enda %}…{% endb %}) — an end tag closes the innermost open tag of its kind.
+type RegionTag struct {
+	Kind string
+	End  bool
+}
+
+// Multi is a generator-only splice of several nodes (flattened by gen.block, never printed itself).
+type Multi []TNode
+
+func (m Multi) Source(sb *strings.Builder) { srcList(sb, m) }
+func (m Multi) Enc(sb *strings.Builder)    { panic("Multi must be flattened") }
+
+func (n RegionTag) Source(sb *strings.Builder) {
+	if n.End {
+		sb.WriteString("{% end" + n.Kind + " %}")
+	} else {
+		sb.WriteString("{% " + n.Kind + " %}")
+	}
+}
+func (n RegionTag) Enc(sb *strings.Builder) { sb.WriteString(" rtag " + n.Kind + " " + b01(n.End)) }
+
 func srcList(sb *strings.Builder, ns []TNode) {
 	for _, n := range ns {
 		n.Source(sb)
